@@ -200,6 +200,70 @@ def random_script(rng, nops, nkeys, maxlive, api, allow_a=False):
     return ops
 
 
+DUP_TARGETS = [[], ["i1"], ["a1"], ["i1", "i3"], ["a3", "a1"], ["a1", "a3"], ["i1", "i3", "i5", "d1"], ["i3", "i1", "i5", "i7", "i2"]]
+DUP_SOURCES = [["c2"], ["c2", "c4"], ["c0", "c2", "c4"], ["c4", "c2", "c0", "c6"], ["C4", "C2"], ["C2", "C4", "C6"], ["c2", "C0", "c6"],
+               ["c3", "c3", "c1"], ["c1", "c3"], ["c7", "c8", "c9"], ["c-3", "c-2"], ["c9", "c-9"]]
+DUP_FOLLOW = [["i6"], ["i0", "q0"], ["i2", "q2", "d0", "i9"], ["u0", "r0", "i4"], ["p0", "i5"], ["q4", "q-9", "d1", "d0", "i3"],
+              ["p3", "i10", "q10"], ["i8", "i8", "d2", "u1", "r0"]]
+
+
+def dup_scripts(rng, thorough, places, model):
+    """model=True: only histories the Coq model follows exactly (LYD_DUP_NO_LYDS only into an empty parent: otherwise the
+    copy of the leader's metadata stays on a non-leader instance)"""
+    L = []
+    types = TYPES if thorough else ["i8", "l2", rng.choice(["str", "d64", "un", "l1"])]
+    for t in types:
+        for p in places:
+            for tg in DUP_TARGETS:
+                if p[1] == "2" and tg and tg[0][0] == "a":
+                    continue
+                if p[0] == "t" and tg == ["a3", "a1"]:
+                    # merging (lyd_insert_sibling of several nodes -> lyds_merge_nodes2) into instances that were appended
+                    # UNSORTED as `ordered` input is outside the contract of LYD_INSERT_NODE_LAST: lyds_merge_nodes2_among
+                    # walks rb_next() from the previous destination node and meets NULL (a single insert sorts lazily)
+                    continue
+                for src in DUP_SOURCES:
+                    pops = ["p0", "p2", "p3"] + (["p1", "p4"] if not tg else [])
+                    for po in pops:
+                        for fo in (DUP_FOLLOW if thorough else rng.sample(DUP_FOLLOW, 3)):
+                            if po in ("p1", "p4") and model and any(o[0] == "p" for o in fo):
+                                continue
+                            L.append("lyds\t%s\t%s\t1\t%s" % (t, p, " ".join(tg + src + [po] + fo)))
+    # random histories with duplications
+    for _ in range(600 if thorough else 60):
+        t, p = rng.choice(TYPES), rng.choice(places)
+        nk = rng.choice([3, 8, 30])
+        ops, live, nsrc, pool = [], 0, 0, 0
+        for _ in range(rng.choice([10, 30, 80])):
+            x = rng.random()
+            k = rng.randrange(-(nk // 2), nk - nk // 2)
+            if x < 0.3:
+                ops.append("i%d" % k)
+                live += 1
+            elif x < 0.5 and nsrc < 6:
+                ops.append("c%d" % k)
+                nsrc += 1
+            elif x < 0.65 and nsrc:
+                o = rng.choice([0, 0, 2, 3] + ([1, 4] if live == 0 and not model else []))
+                ops.append("p%d" % o)
+                live += nsrc
+            elif x < 0.8 and live:
+                ops.append("d%d" % rng.randrange(live))
+                live -= 1
+            elif x < 0.85 and live and model:
+                ops.append("u%d" % rng.randrange(live))
+                live -= 1
+                pool += 1
+            elif x < 0.9 and pool and model:
+                ops.append("r%d" % rng.randrange(pool))
+                pool -= 1
+                live += 1
+            else:
+                ops.append("q%d" % k)
+        L.append("lyds\t%s\t%s\t1\t%s" % (t, p, " ".join(ops)))
+    return L
+
+
 class RbStatic(_Base):
     """rb_insert_node / rb_insert_color / rb_remove / rb_remove_color / rb_find / rb_next / rb_prev vs RBTree.v"""
     name = "rbs"
@@ -274,6 +338,9 @@ class LydsApi(_Base):
                 for pre in itertools.product(alpha_a, repeat=na):
                     for s in itertools.product(alpha_b, repeat=2 if not thorough else 3):
                         L.append("lyds\t%s\t%s\t1\t%s" % (t, p, " ".join(list(pre) + list(s))))
+        # duplication into the parent (lyd_dup_siblings / lyd_dup_single, with WITH_PARENTS, NO_LYDS) of a source list built
+        # by sorted inserts (c) / appends (C), into 0, 1, >= 2 existing instances with and without a sorting tree, then edits
+        L += dup_scripts(rng, thorough, ["c0", "c1", "c2"], model=True)
         # random long scripts
         for i in range(self.n(tier, 18, 400, scale)):
             t, p = rng.choice(combos)
@@ -299,24 +366,86 @@ MERGE_REGRESS = [
 ]
 
 
+# regression: lyd_dup() appended the 2nd.. duplicate with LYD_INSERT_NODE_LAST also when the first duplicate landed behind
+# EXISTING instances; the appended duplicates never entered the leader's sorting tree and the next sorted insert went
+# wrong (1 2 3 5 4). Found by a seed agent; these histories must give sorted sequences.
+DUP_REGRESS = [
+    "lyds\ti8\tc0\t1\ti1 i2 c3 c4 p0 i5",
+    "lyds\ti8\tc1\t1\ti1 i2 c3 c4 c6 p0 i5 q4 d3 i4",
+    "lyds\tl2\tc0\t1\ti1 c3 c4 p2 i5 i2",
+    "lyds\tstr\tc1\t1\ti0 i1 i2 c3 c4 c5 p0 d0 d0 d0 i9 i3",
+    "lyds\tun\tt0\t1\ti1 i2 c3 c4 p0 i5",
+]
+
+
 def is_subseq(a, b):
     it = iter(b)
     return all(x in it for x in a)
+
+
+def stable_pos(seq, k):
+    return max([q + 1 for q, e in enumerate(seq) if e[0] <= k] + [0])
+
+
+def is_sorted(seq):
+    return all(seq[i][0] <= seq[i + 1][0] for i in range(len(seq) - 1))
+
+
+class SeqModel:
+    """the sibling sequence of one system-ordered (leaf-)list as the abstract semantics (Sorted.v: stable_insert, isort,
+    remove_nth; lyds_dup) gives it; tree = the leader owns a sorting tree (decides when the lazy creation sorts)"""
+
+    def __init__(self, seq=None, tree=False):
+        self.seq = list(seq or [])
+        self.tree = tree
+
+    def insert(self, x):
+        if self.seq and not self.tree:
+            self.seq = sorted(self.seq, key=lambda e: e[0])       # lazy creation = stable insertion sort
+        if self.seq:
+            self.tree = True
+        pos = stable_pos(self.seq, x[0])
+        self.seq = self.seq[:pos] + [x] + self.seq[pos:]
+
+    def append(self, x):
+        self.seq.append(x)
+
+    def delete(self, i):
+        if 0 <= i < len(self.seq):
+            del self.seq[i]
+            if not self.seq:
+                self.tree = False
+
+    def dup(self, xs, opt, after):
+        """lyd_dup() as fixed: the first duplicate by the default path, the second is appended iff the first is the only
+        instance and the last sibling, all others by the default path; NO_LYDS: all appended; lyd_dup_single: all default"""
+        if opt in (1, 4):
+            for x in xs:
+                self.append(x)
+            return
+        for n, x in enumerate(xs):
+            if opt != 3 and n == 1 and len(self.seq) == 1 and not after:
+                self.append(x)
+            else:
+                self.insert(x)
 
 
 class SortedOrder:
     """C04 ordering kernel on the implementation alone: after every public editing call on a system-ordered (leaf-)list the
     read-only checker is quiet (links, red-black invariants, tree walk = sibling order, metadata on the leader, every
     present instance found) and the sibling sequence is the one the abstract sequence semantics gives: insert = stable
-    insert by key, free/unlink = delete that position, lyd_unlink_siblings = keep the prefix (lyds_split), inserting the
-    split-off chain again = sorted union that keeps the destination instances in place (lyds_merge, not in the Coq model);
+    insert by key (after a stable sort when no tree existed), free/unlink = delete that position, lyd_unlink_siblings = keep
+    the prefix (lyds_split), inserting the split-off chain again = sorted union that keeps the destination instances in
+    place (lyds_merge, not in the Coq model), lyd_dup_siblings / lyd_dup_single into the parent (with WITH_PARENTS, NO_LYDS;
+    at top level duplicates without parent merged by lyd_insert_sibling) = the instances inserted one by one;
     two permutations of the same distinct keys give the same sequence"""
     name = "sorted-order"
     driver = "t_sorted"
 
     def gen(self, rng, tier, scale=1.0):
-        L = list(MERGE_REGRESS)
-        n = int((400 if tier == "thorough" else 40) * scale)
+        L = list(MERGE_REGRESS) + list(DUP_REGRESS)
+        thorough = tier == "thorough"
+        n = int((400 if thorough else 40) * scale)
         for _ in range(n):
             t, p = rng.choice(TYPES), rng.choice(PLACES)
             keys = rng.sample(range(-20, 21), rng.randrange(2, 30))
@@ -335,7 +464,7 @@ class SortedOrder:
                     live -= 1
             L.append("lyds\t%s\t%s\t1\t%s" % (t, p, " ".join(ops)))
         # split / merge histories
-        for _ in range(int((600 if tier == "thorough" else 60) * scale)):
+        for _ in range(int((600 if thorough else 60) * scale)):
             t, p = rng.choice(TYPES), rng.choice(PLACES)
             nk = rng.choice([3, 6, 40])
             ops = []
@@ -360,15 +489,30 @@ class SortedOrder:
                 else:
                     ops.append("q%d" % rng.randrange(-(nk // 2), nk - nk // 2))
             L.append("lyds\t%s\t%s\t1\t%s" % (t, p, " ".join(ops)))
+        # duplication histories, all placements (top level: duplicates without parent + lyd_insert_sibling)
+        sub = dup_scripts(rng, thorough, PLACES, model=False)
+        L += sub if thorough else rng.sample(sub, min(len(sub), int(1500 * scale)))
+        # LYD_DUP_NO_LYDS into a parent with 1 / >= 2 instances that were only appended (no tree), source without metadata
+        for t in (TYPES if thorough else ["i8", "l1"]):
+            for p in ("c0", "c1", "c2", "t0"):
+                for tg in (["a1"], ["a1", "a3"], ["a3", "a1", "a2"]):
+                    if p[1] == "2":
+                        tg = ["i1"]
+                    for src in (["c2"], ["C2", "C4"], ["C4", "C0", "C2"]):
+                        for po in ("p1", "p4"):
+                            for fo in (["i2"], ["q2", "d0", "i0", "i9"]):
+                                L.append("lyds\t%s\t%s\t1\t%s" % (t, p, " ".join(tg + src + [po] + fo)))
         return L
 
     def judge(self, line, out):
         f = line.split("\t")
         ops = f[-1].split(" ")
+        place = f[2]
+        top, after = place[0] == "t", place[1] == "2"
         j = judge_tokens("lyds", ops, out)
         if j:
             return j
-        prev, chain, nid = [], None, 0
+        M, S, chain, nid, pool = SeqModel(), SeqModel(), None, 0, []
         toks = out.split(" ")
         if len(toks) != len(ops):
             return ("sorted-result", "%d answers for %d ops" % (len(toks), len(ops)))
@@ -380,31 +524,58 @@ class SortedOrder:
             except (ValueError, TypeError):
                 return ("sorted-order", "op %d (%s): %s" % (i, op, s))
             arg = int(op[1:]) if len(op) > 1 else 0
-            exp = None
+            prev = list(M.seq)
             if op[0] == "i":
-                new = (arg, nid)
+                M.insert((arg, nid))
                 nid += 1
-                pos = max([q + 1 for q, e in enumerate(prev) if e[0] <= arg] + [0])
-                exp = prev[:pos] + [new] + prev[pos:]
+            elif op[0] == "a":
+                M.append((arg, nid))
+                nid += 1
+            elif op[0] == "c":
+                S.insert((arg, nid))
+                nid += 1
+            elif op[0] == "C":
+                S.append((arg, nid))
+                nid += 1
             elif op[0] in "du":
-                exp = prev[:arg] + prev[arg + 1:] if 0 <= arg < len(prev) else prev
+                if op[0] == "u" and 0 <= arg < len(prev):
+                    pool.append(prev[arg])
+                M.delete(arg)
+            elif op[0] == "r":
+                if 0 <= arg < len(pool):
+                    M.insert(pool.pop(arg))
             elif op[0] == "s":
                 if chain is None and 0 <= arg < len(prev) and res == "-":
-                    exp, chain = prev[:arg], prev[arg:]
-                else:
-                    exp = prev
-            elif op[0] == "m":
-                if chain is not None and res == "+":
-                    if sorted(cur) != sorted(prev + chain) or not is_subseq(prev, cur) or \
-                            [e[0] for e in cur] != sorted(e[0] for e in cur):
-                        return ("sorted-merge", "op %d (m): %s + %s gave %s" % (i, prev, chain, cur))
-                    chain = None
-                    exp = cur
-                else:
-                    exp = prev
-            else:
-                exp = prev
-            if cur != exp:
-                return ("sorted-order", "op %d (%s): sequence %s, expected %s" % (i, op, cur, exp))
-            prev = cur
+                    chain = SeqModel(prev[arg:], M.tree and arg == 0)
+                    M = SeqModel(prev[:arg], M.tree and arg > 0)
+            elif op[0] == "m" or (op[0] == "p" and top):
+                src = None
+                if op[0] == "m":
+                    if chain is not None and res == "+":
+                        src, chain = chain, None
+                elif S.seq and res == "+":
+                    src = SeqModel()
+                    xs = [(k, nid + n) for n, (k, _) in enumerate(S.seq)]
+                    nid += len(xs)
+                    src.dup(xs, arg if arg in (1, 4) else 0, False)       # the driver uses lyd_dup_siblings at top level
+                if src is not None:
+                    if not prev:
+                        M = src
+                    else:
+                        union = sorted(prev + src.seq)
+                        if sorted(cur) != union or (is_sorted(prev) and not is_subseq(prev, cur)) or not is_sorted(cur):
+                            return ("sorted-merge", "op %d (%s): %s + %s gave %s" % (i, op, prev, src.seq, cur))
+                        M = SeqModel(cur, True)
+            elif op[0] == "p":
+                if S.seq and res == "+":
+                    xs = [(k, nid + n) for n, (k, _) in enumerate(S.seq)]
+                    nid += len(xs)
+                    M.dup(xs, arg, after)
+            if cur != M.seq:
+                tag = "sorted-dup" if op[0] == "p" else "sorted-order"
+                return (tag, "op %d (%s): sequence %s, expected %s" % (i, op, cur, M.seq))
+            if op[0] == "q":
+                exp = "1" if any(e[0] == arg for e in M.seq) else "0"
+                if res != exp:
+                    return ("sorted-find", "op %d (%s): answer %s, expected %s" % (i, op, res, exp))
         return None
